@@ -7,7 +7,7 @@ m = {
  "setup_cmd": "/verif/tools/setup.sh",
  "hooks": {
   "guard": "verif",
-  "enable": "go build -tags verif (harnesses wrap the transport driver through uhppote.VerifSetDriver; `-tags 'verif verifcard'` additionally exports the card-number predicate). Engine-E1 checks additionally regenerate scheduler instrumentation of /repo/uhppote from the working tree on every run and apply it with `go build -overlay` (nothing of that is committed to /repo).",
+  "enable": "go build -tags verif (harnesses wrap the transport driver through uhppote.VerifSetDriver; `-tags 'verif verifcard'` additionally exports the card-number predicate). Engine-E1 checks (and C14, for its clock-independence family) additionally regenerate scheduler instrumentation of every package of /repo from the working tree on every run and apply it with `go build -overlay` (nothing of that is committed to /repo). Harnesses with an ARCH386 marker are built a second time with GOARCH=386, and once more per custom build tag found in the library's own //go:build lines (none on the pinned tree).",
   "baseline_off_cmd": "cd /repo && GOFLAGS=-mod=mod GOPROXY=off GOSUMDB=off GOTOOLCHAIN=local go test -json -vet=off -count=1 -timeout 25m ./...",
   "source_commits": CHECKS["hook_commits"],
   "add_only": True
